@@ -22,7 +22,7 @@ func init() {
 				"NOT decided: the OS-level execve; with --runtime-api-address host:0 the advertised port would differ from the bound one (observation, not armed).",
 			RuleText:    "one obligation per shape rule, per layer key set, per union argument, per wiring edge",
 			Assumptions: trusted,
-			MinObs:      30,
+			MinObs:      27,
 		},
 		Run: runC16,
 	})
@@ -467,9 +467,36 @@ func checkCustomerTaint(c *report.Ctx) {
 		sort.Strings(names)
 		want := "L/rapidcore/env.NewEnvironment"
 		if layer == "Customer" {
-			want = envT + ".mergeCustomerEnvironmentVariables,L/rapidcore/env.NewEnvironment"
+			// the customer layer is also replaced by the customer merge, wherever it is written (the helper
+			// mergeCustomerEnvironmentVariables is looked through: internal/load/norm.go): every such store
+			// is Customer = mapUnion(Customer, <the map handed in>), i.e. later values override earlier ones
+			// inside the customer layer and nothing else enters it
+			okAll, nst := true, 0
+			var pos token.Pos
+			for f, sts := range w {
+				if an.FuncName(f) == "L/rapidcore/env.NewEnvironment" {
+					continue
+				}
+				for _, st := range sts {
+					nst++
+					if pos == token.NoPos {
+						pos = an.InstrPos(st)
+					}
+					cl, _ := an.CallOf(an.Strip(st.Val, false))
+					if cl == nil || an.Callee(cl) != "L/rapidcore/env.mapUnion" {
+						okAll = false
+						continue
+					}
+					a := unionArgsMixed(cl)
+					if !(len(a) == 2 && a[0] == "Customer" && a[1] == "param") {
+						okAll = false
+					}
+				}
+			}
+			c.Check("R-ORDER", envT+".Customer/merge-is-union-later-overrides", "merging customer variables is union(existing, new): the init request's values override CLI ones, all inside the customer layer", okAll && nst >= 2, pos, nst, "%d merge stores, all of the form Customer = mapUnion(Customer, parameter): %v", nst, okAll)
+			continue
 		}
-		c.Check("R-WHO", envT+"."+layer+"/assigned-by", "a layer map is replaced only by the constructor (the customer layer also by the customer merge)", strings.Join(names, ",") == want, token.NoPos, len(names), "assigned in: %v", names)
+		c.Check("R-WHO", envT+"."+layer+"/assigned-by", "a reserved layer map is replaced only by the constructor", strings.Join(names, ",") == want, token.NoPos, len(names), "assigned in: %v", names)
 	}
 	// values stored into reserved layers come from scalar parameters / formatted strings, never from a map parameter
 	bad := []string{}
@@ -500,28 +527,43 @@ func checkCustomerTaint(c *report.Ctx) {
 		})
 	}
 	c.Check("R-WIRE", envT+"/reserved-values-from-dedicated-fields", "reserved layers receive their values only from the dedicated scalar arguments (handler, function name/version, credentials, address), never from a customer-supplied map", len(bad) == 0 && n >= 8, token.NoPos, n, "%d stores; suspicious: %v", n, bad)
-	// the customer maps flow into mergeCustomerEnvironmentVariables only
+	// the customer map of the init request flows into the customer merge only
 	if f := fn(c, "L/rapidcore/env", "(*Environment).storeNonCredentialEnvironmentVariablesFromInit"); f != nil {
 		ok := false
-		for _, call := range an.CallsTo(f, envT+".mergeCustomerEnvironmentVariables") {
-			_, ok = call.Common().Args[1].(*ssa.Parameter)
-		}
 		nuse := 0
 		for _, p := range f.Params {
-			if p.Name() == "customerEnv" {
-				nuse = len(*p.Referrers())
+			if p.Name() != "customerEnv" {
+				continue
+			}
+			nuse = len(*p.Referrers())
+			for _, call := range an.CallsTo(f, "L/rapidcore/env.mapUnion") {
+				for _, v := range variadicValues(call.Common().Args[0]) {
+					if v == ssa.Value(p) {
+						if st := storedToField(call, envT, "Customer"); st {
+							ok = true
+						}
+					}
+				}
 			}
 		}
-		c.Check("R-WIRE", an.FuncName(f)+"/customer-map-only-merged", "the customer-supplied map is used only as the argument of the customer merge", ok && nuse == 1, fpos(f), nuse, "uses of customerEnv: %d", nuse)
+		c.Check("R-WIRE", an.FuncName(f)+"/customer-map-only-merged", "the customer-supplied map is used only as the argument of the customer merge", ok && nuse == 1, fpos(f), nuse, "uses of customerEnv: %d; merged into the customer layer: %v", nuse, ok)
 	}
-	if f := fn(c, "L/rapidcore/env", "(*Environment).mergeCustomerEnvironmentVariables"); f != nil {
-		ok := false
-		for _, call := range an.CallsTo(f, "L/rapidcore/env.mapUnion") {
-			a := unionArgsMixed(call)
-			ok = len(a) == 2 && a[0] == "Customer" && a[1] == "param"
+}
+
+// storedToField: the call's value is stored to struct.field.
+func storedToField(call ssa.CallInstruction, structName, field string) bool {
+	v := call.Value()
+	if v == nil {
+		return false
+	}
+	for _, r := range *v.Referrers() {
+		if st, ok := r.(*ssa.Store); ok && st.Val == ssa.Value(v) {
+			if fr, k := an.AsField(st.Addr); k && fr.Struct == structName && fr.Field == field {
+				return true
+			}
 		}
-		c.Check("R-ORDER", an.FuncName(f)+"/later-overrides", "merging customer variables is union(existing, new): the init request's values override CLI ones, all inside the customer layer", ok, fpos(f), 1, "%v", ok)
 	}
+	return false
 }
 
 func unionArgsMixed(call ssa.CallInstruction) []string {
